@@ -52,9 +52,9 @@ struct TV
     struct raw {};
     TV(raw, long i) : id(i) { ++S.objs_alive; ++S.payload_live; }
     TV(const TV& o) : id(o.id) { ++S.objs_alive; ++S.copies; if (id > 0) ++S.payload_live; S.ev += "C"; put(id); S.ev += ";"; }
-    TV(TV&& o) noexcept : id(o.id) { ++S.objs_alive; ++S.moves; if (o.id > 0) o.id = -o.id; }
+    TV(TV&& o) noexcept(Tag != 2) : id(o.id) { ++S.objs_alive; ++S.moves; if (o.id > 0) o.id = -o.id; }
     TV& operator=(const TV& o) { if (this != &o) { drop(); id = o.id; ++S.copies; if (id > 0) ++S.payload_live; S.ev += "C"; put(id); S.ev += ";"; } return *this; }
-    TV& operator=(TV&& o) noexcept { if (this != &o) { drop(); id = o.id; ++S.moves; if (o.id > 0) o.id = -o.id; } return *this; }
+    TV& operator=(TV&& o) noexcept(Tag != 2) { if (this != &o) { drop(); id = o.id; ++S.moves; if (o.id > 0) o.id = -o.id; } return *this; }
     ~TV() { drop(); --S.objs_alive; }
     // construction from right-side values by a rule without functor (default functor)
     template<class A, class... B, class = std::enable_if_t<!(sizeof...(B) == 0 && std::is_same_v<std::decay_t<A>, TV>)>>
@@ -64,6 +64,7 @@ private:
 };
 using V = TV<0>;
 using W = TV<1>;
+using XT = TV<2>;    // copyable, move constructor not noexcept (a hand-written class without the annotation)
 
 // move-only tracked value
 struct MV
